@@ -96,7 +96,12 @@ InitCfg(p) == IF p = "nmpkg" THEN [NoneCfg EXCEPT !.main = "main1"] ELSE NoneCfg
 WriteVersions ==
   [entry |-> {"1", "2", "3", "bad"}, xjs |-> {"1", "2", "bad"}, xts |-> {"1", "2"},
    didx |-> {"1", "2", "bad"}, dfile |-> {"1"}, near |-> {"1", "2"}, d |-> {"1"}, dep |-> {}]
-SrcSize(c) == IF c \in {"1", "2", "A", "B"} THEN 10 ELSE IF c = "3" THEN 20 ELSE 15
+\* a rename carries the text of one path to another one: "r1" is the text of version 1 of the other path
+Renamed(v) == CASE v = "1" -> "r1" [] v = "2" -> "r2" [] v = "3" -> "r3" [] v = "bad" -> "rbad"
+                [] v = "r1" -> "1" [] v = "r2" -> "2" [] v = "r3" -> "3" [] v = "rbad" -> "bad" [] OTHER -> v
+\* x.ts text (with a type annotation) in x.js does not parse; x.js text in x.ts does
+IsBad(p, v) == v \in {"bad", "rbad"} \/ (p = "xjs" /\ v \in {"r1", "r2", "r3"})
+SrcSize(c) == IF c \in {"1", "2", "A", "B"} THEN 10 ELSE IF c = "3" THEN 20 ELSE IF c \in {"r1", "r2"} THEN 11 ELSE IF c = "r3" THEN 21 ELSE 15
 CfgSize(f) == 2 + Cardinality({k \in CfgFields : f[k] # NoneCfg[k]})
 
 Missing == [k |-> "missing", c |-> "", m |-> 0, i |-> 0]
@@ -171,6 +176,7 @@ Build(s, c, t, fc, ac, epx) ==
       TscV    == IF tscRead /\ ~tscBad THEN SeenF("tsc") ELSE NoneCfg
       \* --- options of a file: tsconfig applies outside node_modules, the
       \* enclosing package.json "type" to .js/.ts/.tsx files
+      pkgId == IF pkgRead THEN SeenC("pkg") ELSE ""
       tscId == IF tscRead /\ ~tscBad THEN SeenC("tsc") ELSE ""
       oRoot == OptsOf(TscV, tscId, PkgV.type)
       oNear == OptsOf(NoneCfg, "", PkgV.type)
@@ -183,12 +189,12 @@ Build(s, c, t, fc, ac, epx) ==
       Used(p) == usedT[p]
       \* --- resolution (probe order of resolver.loadAsFileOrDirectory)
       entryOK == fn("entry").isfile
-      entryParsed == entryOK /\ Used("entry").c # "bad"
+      entryParsed == entryOK /\ ~IsBad("entry", Used("entry").c)
       X   == IF s["xts"].k = "file" THEN "xts" ELSE IF s["xjs"].k = "file" THEN "xjs" ELSE "none"
       DEP == IF s["dep"].k = "link" THEN s["dep"].c ELSE IF s["dep"].k = "file" THEN "dep" ELSE "none"
       D   == IF s["d"].k = "file" THEN "d" ELSE IF s["dfile"].k = "file" THEN "dfile"
              ELSE IF s["d"].k = "dir" /\ s["didx"].k = "file" THEN "didx" ELSE "none"
-      didxParsed == entryParsed /\ D = "didx" /\ Used("didx").c # "bad"
+      didxParsed == entryParsed /\ D = "didx" /\ ~IsBad("didx", Used("didx").c)
       viaPaths == TscV.paths = "liblocal"
       nmRead == didxParsed /\ ~viaPaths /\ s["near"].k # "file" /\ fn("nmpkg").isfile
       LIB == IF viaPaths THEN "liblocal" ELSE IF s["near"].k = "file" THEN "near"
@@ -204,13 +210,18 @@ Build(s, c, t, fc, ac, epx) ==
                    ELSE IF o.tg = "ES2020" THEN "assign" ELSE "define"
       StrictEff(o) == IF o.strict = "none" THEN "sloppy" ELSE "strict"
       Eff(p) == LET u == Used(p) IN
-                IF u.c = "bad" THEN <<p, "bad">>
+                IF IsBad(p, u.c) THEN <<p, "bad", u.c>>
                 ELSE IF p = "entry" THEN <<p, u.c>> \o JsxEff(u.o) \o <<DefEff(u.o)>>
-                ELSE IF p \in {"cjs", "didx", "dfile"} THEN <<p, u.c, u.o.mt, StrictEff(u.o)>>
+                \* cjs.js (exports.c = typeof this): CommonJS unless "type" is "module"; then a warning
+                \* whose note quotes the "type" line of package.json
+                ELSE IF p = "cjs" THEN <<p, u.c, IF u.o.mt = "module" THEN "esm:" \o pkgId ELSE "cjs", StrictEff(u.o)>>
+                \* d/index.js (import + statement): ESM unless "type" is "commonjs"
+                ELSE IF p = "didx" THEN <<p, u.c, IF u.o.mt = "commonjs" THEN "cjs" ELSE "esm", StrictEff(u.o)>>
+                ELSE IF p = "dfile" THEN <<p, u.c, u.o.mt, StrictEff(u.o)>>
                 ELSE IF p = "d" THEN <<p, u.c, StrictEff(u.o)>>
                 ELSE <<p, u.c>>
       sideFx == PkgV.sideEffects = "false" /\ entryParsed /\ D # "none"
-      Dropped == IF sideFx /\ Used(D).c # "bad" /\ (D = "didx" /\ LIB # "none" => Used(LIB).c # "bad")
+      Dropped == IF sideFx /\ ~IsBad(D, Used(D).c) /\ (D = "didx" /\ LIB # "none" => ~IsBad(LIB, Used(LIB).c))
                  THEN {D} \cup (IF didxParsed THEN {LIB} \ {"none"} ELSE {}) ELSE {}
       diag == (IF pkgBad THEN {"pkg-bad"} ELSE {}) \cup (IF tscBad THEN {"tsc-bad"} ELSE {})
               \* bundler.addEntryPoints prefixes "./" when the entry point is an existing file,
@@ -220,12 +231,13 @@ Build(s, c, t, fc, ac, epx) ==
               \cup (IF entryParsed /\ DEP = "none" THEN {"dep-unresolved"} ELSE {})
               \cup (IF entryParsed /\ D = "none" THEN {"d-unresolved"} ELSE {})
               \cup (IF didxParsed /\ LIB = "none" THEN {"lib-unresolved"} ELSE {})
-              \cup (IF sideFx THEN {"ignored-bare-import"} ELSE {})
+              \* (the warning's note quotes the "sideEffects" line of package.json)
+              \cup (IF sideFx THEN {"ignored-bare-import:" \o pkgId} ELSE {})
       \* a build with errors produces no output files: only diagnostics remain observable
-      parseErrs == {p \in Loaded : Used(p).c = "bad"}
-      failed == (diag \ {"ignored-bare-import"}) # {} \/ parseErrs # {}
-      res == [mods |-> IF failed THEN {<<p, "bad">> : p \in parseErrs}
-                                       \cup {<<p, "warn", Used(p).o.mt>> : p \in {q \in Loaded \cap {"cjs"} : Used(q).o.mt = "module"}}
+      parseErrs == {p \in Loaded : IsBad(p, Used(p).c)}
+      failed == (diag \ {"ignored-bare-import:" \o pkgId}) # {} \/ parseErrs # {}
+      res == [mods |-> IF failed THEN {<<p, "bad", Used(p).c>> : p \in parseErrs}
+                                       \cup {<<p, "warn", pkgId>> : p \in {q \in Loaded \cap {"cjs"} : Used(q).o.mt = "module"}}
                        ELSE {Eff(p) : p \in Loaded \ Dropped},
               diag |-> diag]
       \* --- watch predicates (fs_real.go) and observations
@@ -350,7 +362,7 @@ ApplySrc(e) ==
     [] e.op = "create"   -> [src EXCEPT ![e.p] = NewFile(e.v)]
     [] e.op = "mkfile"   -> [src EXCEPT ![e.p] = NewFile(e.v)]
     [] e.op = "retarget" -> [src EXCEPT ![e.p] = [k |-> "link", c |-> e.v, m |-> now, i |-> ino]]
-    [] e.op = "rename"   -> [src EXCEPT ![e.to] = src[e.p], ![e.p] = Missing]                  \* keeps inode and mtime
+    [] e.op = "rename"   -> [src EXCEPT ![e.to] = [src[e.p] EXCEPT !.c = Renamed(@)], ![e.p] = Missing]   \* keeps inode and mtime
     [] e.op = "delete" /\ e.p \in SrcPaths ->
          IF e.p = "d" THEN [src EXCEPT !["d"] = Missing, !["didx"] = Missing, !["near"] = Missing]
          ELSE IF e.p = "near" THEN [src EXCEPT !["near"] = [k |-> "dir", c |-> "", m |-> now, i |-> src["near"].i]]  \* the package directory stays
